@@ -110,7 +110,8 @@ def dflt_member_schema(m):
         if k["scalar"].get("format"):
             sch["format"] = k["scalar"]["format"]
     elif "enum" in k:
-        sch = {"allOf": [{"$ref": "#/components/schemas/Color"}]} if m.get("ref") else {"type": "string", "enum": list(k["enum"])}
+        # ref = True: `allOf: [$ref]` (keywords next to it are kept); ref = "bare": a plain `$ref` with SIBLING keywords
+        sch = {"$ref": "#/components/schemas/Color"} if m.get("ref") == "bare" else {"allOf": [{"$ref": "#/components/schemas/Color"}]} if m.get("ref") else {"type": "string", "enum": list(k["enum"])}
     elif "object" in k:
         sch = {"type": "object", "properties": {key: {"type": "string"} for key in k["object"]}}
     else:
